@@ -105,5 +105,42 @@ def fromNpArrays (ids : CoefId) (x : List α) : Option (Coeffs α) :=
   | .one, [c] => some { model_type := .tidd, intercept := c }
   | _, _ => none
 
+/-- the 7-vector the optimiser's objective hands to `full_model` for a raw vector of layout `key`
+(`evaluate_hdd_tidd_cdd_smooth`, `_hdd_tidd_cdd`, `_c_hdd_tidd_smooth` / `set_full_model_coeffs_smooth`,
+`_c_hdd_tidd`, `_tidd`) -/
+def scoredX (key : ModelKey) (raw : List α) : Option (List α) :=
+  match key, raw with
+  | .hdd_tidd_cdd_smooth, [hb, βh, pkh, cb, βc, pkc, c] =>
+    match get_smooth_coeffs hb pkh cb pkc with
+    | [hb', hk, cb', ck] => some [hb', βh, hk, cb', βc, ck, c]
+    | _ => none
+  | .hdd_tidd_cdd, [hb, βh, cb, βc, c] => some [hb, βh, 0, cb, βc, 0, c]
+  | .c_hdd_tidd_smooth, [bp, β, k, c] =>
+    if Arith.ltb β 0 then some [bp, -β, k, bp, 0, 0, c] else some [bp, 0, 0, bp, β, k, c]
+  | .c_hdd_tidd, [bp, β, c] =>
+    if Arith.ltb β 0 then some [bp, -β, 0, bp, 0, 0, c] else some [bp, 0, 0, bp, β, 0, c]
+  | .tidd, [c] => some [0, 0, 0, 0, 0, 0, c]
+  | _, _ => none
+
+/-- the value the optimiser scored at temperature `T` -/
+def scored (key : ModelKey) (raw : List α) (T_min T_max T : α) : Option α :=
+  match scoredX key raw with
+  | some [a, b, c, d, e, f, g] => full_model_elem a b c d e f g [T_min, T_max] T
+  | _ => none
+
+/-- `OptimizedResult._refine_model` + `ModelCoefficients.from_np_arrays`: the record that is kept -/
+def keptRecord (key : ModelKey) (raw : List α) (T_min T_max T_min_seg T_max_seg : α) : Option (Coeffs α) :=
+  match get_full_model_x key raw T_min T_max T_min_seg T_max_seg with
+  | some [hb, βh, pkh, cb, βc, pkc, c] =>
+    match reduceModel 3 hb βh pkh cb βc pkc c T_min_seg T_max_seg key with
+    | some (ids, x) => fromNpArrays ids x
+    | none => none
+  | _ => none
+
+/-- the sub-model that is stored for the component (limits of the fitted days) -/
+def keptSubmodel (key : ModelKey) (raw : List α) (T_min T_max T_min_seg T_max_seg : α) : Option (Submodel α) :=
+  (keptRecord key raw T_min T_max T_min_seg T_max_seg).map fun c =>
+    { coeffs := c, T_min := T_min, T_max := T_max, T_min_seg := T_min_seg, T_max_seg := T_max_seg, f_unc := 0 }
+
 end
 end EEM.Model.Refine
